@@ -20,8 +20,13 @@ EntriesOver(blobs) == {[n |-> p, b |-> b, z |-> SizeOf(b)] : p \in Plats, b \in 
 SeqsUpTo(S, n) == UNION {[1..m -> S] : m \in 0..n}
 Locs(blobs) == {Absent, NotFile} \cup {Arch(es) : es \in SeqsUpTo(EntriesOver(blobs), MaxEntries)}
 
+Unusable == {Dangling, Loop, NoPerm, Corrupt}
+\* the full product over the usable kinds, plus every layout with something unusable in at least one
+\* location (for one known platform, explicit output path)
 MCInputs == [inbin : BOOLEAN, exe : Locs({"e1", "e2"}), lib : Locs({"l1", "l2"}),
              q : Queries, om : {"path", "temp"}]
+            \cup {x \in [inbin : BOOLEAN, exe : Locs({"e1", "e2"}) \cup Unusable, lib : Locs({"l1", "l2"}) \cup Unusable,
+                          q : {"linux_amd64"}, om : {"path"}] : x.exe \in Unusable \/ x.lib \in Unusable}
 
 Export == (DoExport /\ pc = "search" /\ i = 1 /\ bundle = Absent) => PrintT(<<"BEHAVIOUR", ToJson(in)>>)
 ====
